@@ -2978,6 +2978,30 @@ def lib_inv(ev, a, k, n, mod):
     return out
 
 
+def lib_pinv(ev, a, k, n, mod):
+    """Moore-Penrose pseudo-inverse: with numpy's default cut-off (machine precision x size) it is the inverse of every matrix
+    numpy.linalg.inv would invert; with an explicit cut-off the singular values below cut-off x the largest are dropped, the
+    result is then marked `truncated` (it is the inverse only for well-conditioned matrices)"""
+    cut = k.get("rcond", k.get("rtol", a[1] if len(a) > 1 else None))
+    herm = k.get("hermitian", a[2] if len(a) > 2 else False)
+    if not isinstance(herm, bool):
+        raise ev.err("numpy.linalg.pinv with a non-constant hermitian flag", n, mod)
+    m = a[0]
+    if herm and isinstance(m, ArrV) and len(m.shape) == 2 and any(sp.simplify(as_sym(m.get((i, j))) - sp.conjugate(as_sym(m.get((j, i))))) != 0
+                                                                   for i in range(m.shape[0]) for j in range(i)):
+        raise ev.err("numpy.linalg.pinv(hermitian=True) of a matrix that is not symmetric", n, mod)
+    out = lib_inv(ev, a[:1], {}, n, mod)
+    if cut is not None:
+        if not (is_sym(cut) and cut.is_number):
+            raise ev.err("numpy.linalg.pinv with a non-constant cut-off", n, mod)
+        if cut > sp.Rational(1, 10 ** 12):
+            out.truncated = cut
+    return out
+
+
+lib_pinv.kw = {"rcond", "rtol", "hermitian"}
+
+
 def lib_allclose_unknown(ev, a, k, n, mod):
     x = a[0]
     if is_sym(x) and x.is_number and is_sym(a[1]) and a[1].is_number:
@@ -3242,7 +3266,7 @@ def lib_match_groups(ev, a, k, n, mod):
 
 LIB.update({
     "match.group": lib_match_group, "match.groups": lib_match_groups,
-    "numpy.zeros": lib_zeros, "numpy.ones": lib_ones, "numpy.linalg.inv": lib_inv,
+    "numpy.zeros": lib_zeros, "numpy.ones": lib_ones, "numpy.linalg.inv": lib_inv, "numpy.linalg.pinv": lib_pinv,
     "numpy.allclose": lib_allclose_unknown, "re.search": lib_regex_method("search"), "re.match": lib_regex_method("match"),
     "re.fullmatch": lib_regex_method("fullmatch"), "re.sub": lib_regex_method("sub"), "re.findall": lib_regex_method("findall"), "re.split": lib_regex_method("split"),
     "re.compile": lib_re_compile, "regex.search": lib_regex_method("search"), "regex.match": lib_regex_method("match"),
